@@ -48,7 +48,8 @@ class C16(core.Check):
     required_buckets = {b: 3 for b in ['line>6-bytes', 'line>16-bytes', 'gap-without-org', 'muted-region', 'zero-length-line',
                                        'included-file', 'predefined-data', 'width:4', 'width:8', 'width:12', 'width:16',
                                        'width:24', 'width:32', 'every-line-length-1..40', 'fmt:listing', 'fmt:hex', 'fmt:intel_hex', 'fmt:minhex',
-                                       'image-fill:nonzero', 'width:not-a-multiple-of-4', 'zero-length-at-gap-edge', 'gap:align', 'gap:memzone', 'gap:muted', 'gap:zone-org']}
+                                       'image-fill:nonzero', 'width:not-a-multiple-of-4', 'zero-length-at-gap-edge', 'gap:align', 'gap:memzone', 'gap:muted', 'gap:zone-org',
+                                       'statement-longer-than-96-bytes', 'long-statement:fill', 'long-statement:cstr']}
     required_buckets['every-line-length-1..40'] = 2
     required_buckets['several-statements-per-line'] = 3
 
@@ -105,6 +106,35 @@ class C16(core.Check):
             ids = {id(l): ('p.asm', k + 1) for k, l in enumerate(lines)}
             yield self.make_case(isa, {'p.asm': ''.join(l['text'] + '\n' for l in lines)}, 'p.asm', [], res, ids,
                                  {'width:16', 'every-line-length-1..40'})
+
+    def long_statement_cases(self):
+        """single statements of 41..3000 bytes (data lists, fills, zero runs, strings): every byte of a statement is listed, however
+        many rows that takes"""
+        sizes = [41, 64, 95, 96, 97, 100, 128, 200, 257, 600, 1500, 3000]
+        for kind, base in [(k_, b_) for k_ in ('data', 'fill', 'zero', 'cstr', 'data16') for b_ in (5, 0, 0x1F3)]:
+            rng = core.rng_for(0, self.pid, 'long', kind)
+            isa = gen_prog.layout_isa(16)
+            lines = [{'k': 'org', 'addr': base, 'zone_name': None}]
+            for n in (sizes if kind in ('fill', 'zero') else sizes[:8]):
+                if kind == 'data':
+                    lines.append({'k': 'data', 'width': 1, 'vals': [(n + 3 * j) & 0xFF for j in range(n)]})
+                elif kind == 'data16':
+                    lines.append({'k': 'data', 'width': 2, 'vals': [(n * 257 + 5 * j) & 0xFFFF for j in range(n // 2)]})
+                elif kind == 'fill':
+                    lines.append({'k': 'fill', 'n': n, 'v': (n * 7) & 0xFF or 1})
+                elif kind == 'zero':
+                    lines.append({'k': 'zero', 'n': n})
+                else:
+                    txt = ''.join(chr(0x41 + (j + n) % 26) for j in range(n - 1))
+                    lines.append({'k': 'bytes', 'bytes': (txt.encode() + b'\0').hex(), 'text': f'.cstr "{txt}"'})
+                lines.append({'k': 'data', 'width': 1, 'vals': [0xEE]})
+            res = layout.layout(lines, 16, origin=0, size_of=lambda l, a: gen_prog.byte_line_size(isa, l))
+            layout.memory_map(res, lambda l: gen_prog.byte_line_bytes(isa, l, None, {'GLOBAL': (0, 65535)}))
+            for l in lines:
+                l['text'] = gen_prog.render_line(l, None)
+            ids = {id(l): ('p.asm', k + 1) for k, l in enumerate(lines)}
+            yield self.make_case(isa, {'p.asm': ''.join(l['text'] + '\n' for l in lines)}, 'p.asm', [], res, ids,
+                                 {'width:16', 'statement-longer-than-96-bytes', 'long-statement:' + kind})
 
     def gap_cases(self):
         """a gap in the address map made by something other than .org, with zero-length statements at its edges"""
@@ -210,6 +240,7 @@ class C16(core.Check):
     def cases(self, tier, seed):
         yield from self.corpus_cases(tier)
         yield from self.length_cases()
+        yield from self.long_statement_cases()
         yield from self.compound_cases(tier, seed)
         yield from self.gap_cases()
         yield from self.odd_width_cases()
